@@ -117,7 +117,7 @@ Print Assumptions C14_ng_writer_accepts.
    script is split anywhere as pre ++ nxt :: post and the file is cut k bytes into the block of
    nxt (k = 0: at the block boundary).  Exactly the packets of pre come back, then io.EOF at the
    boundary and io.ErrUnexpectedEOF inside the block.  The cut after the last block is
-   C14_ng_roundtrip_file_partial.  The reader runs with the fuel of the whole file (the model's
+   C14_ng_roundtrip_file_partial.  The reader runs with any fuel at least that of the whole file (the model's
    fuel is a proof device; C15_ng_terminates shows the fuel of the cut input is never exhausted
    either, but the equality of the two runs is not proved).  Missing: cuts inside the section
    header block (covered by the sample below and the correspondence run), ISB/DSB blocks,
@@ -126,8 +126,9 @@ Theorem C14_ng_prefix_file_partial : forall ro sec i0 ops pre nxt post k,
   ro_mixed ro = true -> sec_ok sec -> ops_ok [] (WAddIf i0 :: ops) -> zlen ops < 4294967290 ->
   WAddIf i0 :: ops = pre ++ nxt :: post -> (k < length (enc_op nxt))%nat ->
   let file := write_file sec i0 ops in
+  forall F, (fuel_for (zlen file) <= F)%nat ->
   let cut := (length (enc_shb sec) + length (enc_ops pre) + k)%nat in
-  let r := fst (run_d (session ro (fuel_for (zlen file))) (firstn cut file)) in
+  let r := fst (run_d (session ro F) (firstn cut file)) in
   new_class r = 0 /\ packets r = exp_pkts [] pre /\ end_class r = (if (k =? 0)%nat then 1 else 2).
 Proof. exact prefix_file. Qed.
 Print Assumptions C14_ng_prefix_file_partial.
